@@ -162,7 +162,7 @@ PROPERTIES["C01"] = dict(
             "parser_utility.rs": "spl_frontend/src/parser/utility.rs",
             "parser.rs": "spl_frontend/src/parser.rs"},
     functions={"spl_frontend/src/tokens.rs": ["new_token_pos", "out_of_range", "deletes", "overlaps", "location_offset", "advance", "get_old_reference"],
-               "spl_frontend/src/parser/utility.rs": ["affected", "expect"],
+               "spl_frontend/src/parser/utility.rs": ["affected", "info"],
                "spl_frontend/src/parser.rs": ["impl<T: Parser> Parser for Reference<T>::parse"]},
     explanation=(
         "MECHANISM LEVEL ONLY. lexer::update and the real node parsers (nom) cannot be executed symbolically here, so this "
@@ -190,6 +190,7 @@ PROPERTIES["C01"] = dict(
         H("tokens::__verif::c01_a1_twin_must_fail", QT, "vacuity twin", "", expect="fail", timeout=600),
         H("parser::utility::__verif::c01_a2_q", Q, "affected(): reuse => same as parse from scratch", "4 old tokens + Eof of symbolic kind, any window, <=2 inserted tokens, any old ';'-run node, any reachable position; unwind 8", timeout=1200, mem_gb=20),
         H("parser::utility::__verif::c01_a3_messages", QT, "reused node keeps lexical/syntax messages, drops build/semantic ones", "2 messages of symbolic class", timeout=900),
+        H("parser::utility::__verif::c01_a4_info", QT, "info(): node range relative to the enclosing Reference in the new stream; buffered diagnostics go to the node; caller's buffer and frame restored", "4 old tokens + Eof, any window, any position and frame, 0..3 tokens consumed", timeout=900, mem_gb=20),
         H("parser::utility::__verif::c01_a2_twin_must_fail", QT, "vacuity twin", "", expect="fail", timeout=900),
         H("parser::__verif::c01_a4_scratch", QT, "Reference::parse frame conditions and offset: no old node", "concrete window/position; 4 old tokens + Eof of symbolic kind, symbolic enclosing frame and old offsets", timeout=900),
         H("parser::__verif::c01_a4_twin_must_fail", QT, "vacuity twin", "", expect="fail", timeout=900),
